@@ -86,7 +86,7 @@ def exact_equal(a, b):
         return False
     if a.dtype.kind in "iu" or b.dtype.kind in "iu":
         return [int(x) if float(x).is_integer() else float(x) for x in a.ravel().tolist()] == [int(x) if float(x).is_integer() else float(x) for x in b.ravel().tolist()]
-    return bool(np.array_equal(a, b))
+    return bool(np.array_equal(a, b, equal_nan=True))
 
 
 EXTRA_NAMES = ["upward", "time", "azimuth"]  # deliberately not in alphabetical order
@@ -122,6 +122,16 @@ def build_inputs(case):
 def check_grid(case, ctx):
     coords, data, names, extra_names = build_inputs(case)
     east, north = axes_of(case)
+    masked = not case["int_data"] and build.small_hash(case, 12) % 4 == 0
+    given_coords, given_data = coords, data
+    if masked:
+        # numpy masked arrays (no-data cells of a raster): a masked cell has no value and must come out blank (NaN), never as whatever
+        # number sits under the mask; every other cell keeps its value
+        hole = (np.arange(case["nr"] * case["nc"]).reshape(case["nr"], case["nc"]) % 4) == 1
+        given_data = tuple(np.ma.masked_array(np.where(hole, -99999.0, d), mask=hole) for d in data)
+        data = tuple(np.where(hole, np.nan, d) for d in data)
+        given_coords = tuple(coords[:2]) + tuple(np.ma.masked_array(np.where(hole, -99999.0, c), mask=hole) for c in coords[2:])
+        coords = tuple(coords[:2]) + tuple(np.where(hole, np.nan, c) for c in coords[2:])
     kw = {}
     dims = ("northing", "easting")
     if case["dims"] is not None:
@@ -132,12 +142,12 @@ def check_grid(case, ctx):
     if case["nvars"] == 0:
         d_arg, n_arg = None, None
     elif case["nvars"] == 1:
-        d_arg = data[0] if case["data_names_form"] != "tuple" else data
+        d_arg = given_data[0] if case["data_names_form"] != "tuple" else given_data
         n_arg = names[0] if case["data_names_form"] == "str" else (tuple(names) if case["data_names_form"] == "tuple" else list(names))
     else:
-        d_arg = data
+        d_arg = given_data
         n_arg = tuple(names) if case["data_names_form"] != "list" else list(names)
-    ds = vd.make_xarray_grid(coords, d_arg, n_arg, **kw)
+    ds = vd.make_xarray_grid(given_coords, d_arg, n_arg, **kw)
     ctx.check(isinstance(ds, xr.Dataset), "make_xarray_grid must return a Dataset")
     ctx.check(np.array_equal(ds.coords[dims[1]].values, east) and ds.coords[dims[1]].dims == (dims[1],), "easting coordinate vector wrong")
     ctx.check(np.array_equal(ds.coords[dims[0]].values, north) and ds.coords[dims[0]].dims == (dims[0],), "northing coordinate vector wrong")
@@ -150,10 +160,10 @@ def check_grid(case, ctx):
         # address a few cells by coordinate
         for (i, j) in {(0, 0), (case["nr"] - 1, 0), (0, case["nc"] - 1), (case["nr"] // 2, case["nc"] // 2)}:
             got = ds[name].sel({dims[0]: north[i], dims[1]: east[j]}).values
-            ctx.check(got == data[k][i, j], "variable %s at (northing=%r, easting=%r) is %r, source cell holds %r", name, north[i], east[j], got, data[k][i, j])
+            ctx.check(got == data[k][i, j] or (np.isnan(got) and np.isnan(data[k][i, j])), "variable %s at (northing=%r, easting=%r) is %r, source cell holds %r", name, north[i], east[j], got, data[k][i, j])
     for k, name in enumerate(extra_names or []):
         ctx.check(name in ds.coords and ds.coords[name].dims == dims, "extra coordinate %s missing or with wrong dims", name)
-        ctx.check(np.array_equal(ds.coords[name].values, coords[2 + k]), "extra coordinate %s does not hold its source values", name)
+        ctx.check(np.array_equal(ds.coords[name].values, coords[2 + k], equal_nan=True), "extra coordinate %s does not hold its source values", name)
     # and back to a table
     if case["nvars"] > 0:
         table = vd.grid_to_table(ds)
@@ -166,7 +176,7 @@ def check_grid(case, ctx):
         for k, name in enumerate(names):
             ctx.check(exact_equal(table[name].values, data[k].ravel()), "table column %s is not the raveled input (values %r...)", name, table[name].values[:3].tolist())
         for k, name in enumerate(extra_names or []):
-            ctx.check(np.array_equal(table[name].values, coords[2 + k].ravel()), "table column %s is not the raveled extra coordinate", name)
+            ctx.check(np.array_equal(table[name].values, coords[2 + k].ravel(), equal_nan=True), "table column %s is not the raveled extra coordinate", name)
         # a single DataArray (named) and unnamed
         da = ds[names[0]]
         t2 = vd.grid_to_table(da)
@@ -174,7 +184,7 @@ def check_grid(case, ctx):
                   and np.array_equal(t2[dims[0]].values, nn.ravel()), "grid_to_table of a DataArray misplaces values")
     ctx.label("vars%d" % case["nvars"], "extra%d" % case["nextra"], "coords2d" if case["coords_2d"] else "coords1d",
               "custom_dims" if case["dims"] else "default_dims", "int" if case["int_data"] else "float",
-              "axes_same_dtype" if case.get("east_dtype") == case.get("north_dtype") else "axes_mixed_dtype")
+              "axes_same_dtype" if case.get("east_dtype") == case.get("north_dtype") else "axes_mixed_dtype", "masked_arrays" if masked else "plain_arrays")
     if case["nr"] == 1 or case["nc"] == 1:
         ctx.label("single_row_or_col")
     ctx.nt(case["nr"] >= 2 and case["nc"] >= 2 and case["nr"] != case["nc"])
